@@ -294,6 +294,26 @@ Proof.
           | exact E_accum_dense_info | exact E_accum_ways | exact E_accum_relations | exact E_formulas ].
 Qed.
 
+(* ---------- F. slice discipline (wave 5) ---------- *)
+(* The SET of ways decode_data.go (normal form, helpers inlined) makes, grows and re-slices slices.
+   It is what the by-value treatment of way / relation slices in Pbf/Model.v rests on:
+   - every slice stored in a way / relation is MADE in the scan call that fills it (scanWays: Tags,
+     Nodes; scanRelations: Tags, Members), never taken from a longer array;
+   - the only appends are to dec.q and, in scanDenseNodes, to n.Tags (modelled in Pbf/Arena.v);
+   - the only re-slicing is x[:0] on the reject path (and of the reused primitive block);
+   so an array reachable from an object already in dec.q is never written again.  A patch that cuts
+   slices from a slab (x[:n], x[n:]), reuses capacity (x[:count]) or appends to a way's slice changes
+   this set. *)
+Definition expected_slice_ops : list string :=
+  ["Decode: make []osm.Object len+cap"; "scanDenseNodes: append .Tags"; "scanDenseNodes: append .q";
+   "scanDenseNodes: make osm.Tags len+cap"; "scanDenseNodes: slice[:0]";
+   "scanPrimitiveBlock: slice[:0]";
+   "scanPrimitiveGroup: append .q"; "scanPrimitiveGroup: slice[:0]";
+   "scanRelations: make osm.Members len"; "scanRelations: make osm.Tags len";
+   "scanWays: make osm.Tags len"; "scanWays: make osm.WayNodes len"].
+Theorem decoder_slice_discipline_matches_source : GenPbfCode.slice_ops = expected_slice_ops.
+Proof. reflexivity. Qed.
+
 (* string constants for files that do not open string_scope *)
 Definition sNode := "Node". Definition sWay := "Way". Definition sRelation := "Relation".
 Definition sPrimitiveBlock := "PrimitiveBlock".
